@@ -667,6 +667,57 @@ def expand_context_managers(tree: ast.Module, known: Set[str]) -> List[str]:
     return log
 
 
+def fingerprint(fd: ast.AST) -> str:
+    """shape of a function with every identifier blanked (names, attributes, parameters, keywords, the function's own name): a renamed
+    function - or one whose parameters were reordered - keeps its fingerprint"""
+    import hashlib
+
+    class _Blank(ast.NodeTransformer):
+        def visit_Name(self, node):  # type: ignore
+            return ast.copy_location(ast.Name(id="_", ctx=node.ctx), node)
+
+        def visit_arg(self, node):  # type: ignore
+            node.arg = "_"
+            node.annotation = None
+            return node
+
+        def visit_Attribute(self, node):  # type: ignore
+            self.generic_visit(node)
+            node.attr = "_"
+            return node
+
+        def visit_keyword(self, node):  # type: ignore
+            self.generic_visit(node)
+            node.arg = "_" if node.arg is not None else None
+            return node
+
+        def visit_FunctionDef(self, node):  # type: ignore
+            self.generic_visit(node)
+            node.name = "_"
+            node.returns = None
+            node.decorator_list = []
+            return node
+
+        def visit_AnnAssign(self, node):  # type: ignore
+            self.generic_visit(node)
+            node.annotation = ast.Name(id="_", ctx=ast.Load())
+            return node
+
+        def visit_Constant(self, node):  # type: ignore
+            # text of messages may name the function: only the kind of constant counts
+            return ast.copy_location(ast.Constant(value=type(node.value).__name__), node)
+
+        def visit_JoinedStr(self, node):  # type: ignore
+            return ast.copy_location(ast.Constant(value="fstr"), node)
+
+    t = _Blank().visit(copy.deepcopy(fd))
+    body = t.body if isinstance(t, (ast.FunctionDef, ast.AsyncFunctionDef)) else [t]
+    if body and isinstance(body[0], ast.Expr) and isinstance(body[0].value, ast.Constant):
+        body = body[1:]  # docstring
+    txt = "|".join(ast.dump(x, annotate_fields=False, include_attributes=False) for x in body)
+    return hashlib.sha1(txt.encode()).hexdigest()[:16]
+
+
 def _deco_kind(fd: FuncDef) -> Optional[str]:
     """'plain' / 'classmethod' / 'staticmethod'; None for any other decorator"""
     if not fd.decorator_list:
@@ -676,7 +727,7 @@ def _deco_kind(fd: FuncDef) -> Optional[str]:
     return None
 
 
-def normalise_new(tree: ast.Module, known: Set[str], protected: Set[str]) -> List[str]:
+def normalise_new(tree: ast.Module, known: Set[str], protected: Set[str], known_shapes: Set[str] = frozenset()) -> List[str]:  # type: ignore
     """Third phase, for every module: helpers that the reference tree does not have.
 
     `known` holds the private functions, methods and closures of the pinned tree (ddsverif/known_names.py): the rules were
@@ -703,6 +754,8 @@ def normalise_new(tree: ast.Module, known: Set[str], protected: Set[str]) -> Lis
                 continue
             if q in known or fd.name in protected or _deco_kind(fd) is None:
                 continue
+            if known_shapes and fingerprint(fd) in known_shapes:
+                continue  # a function of the pinned tree under a new name (or in a new place): not a new helper
             if cls is None and fd.decorator_list:
                 continue
             if any(isinstance(n, (ast.Yield, ast.YieldFrom, ast.Await)) for n in _own_walk(fd)):
